@@ -112,9 +112,10 @@ def build_lean(pid, log, extra_targets=()):
         return True, out
 
 
-def audit(pid, theorems, log):
+def audit(pid, theorems, log, imports=()):
     """#print axioms of every listed theorem; returns (obligations, discharged, problems, axioms_seen)."""
-    src = "import Okane.Props.%s\n" % pid + "".join("#print axioms %s\n" % t for t in theorems)
+    src = "import Okane.Props.%s\n" % pid + "".join("import %s\n" % m for m in imports) \
+        + "".join("#print axioms %s\n" % t for t in theorems)
     path = os.path.join(WORK, pid, "Audit_%s.lean" % pid)
     os.makedirs(os.path.dirname(path), exist_ok=True)
     open(path, "w").write(src)
@@ -146,15 +147,31 @@ def audit(pid, theorems, log):
             discharged += 1
     if rc != 0 and not problems:
         problems.append("audit file failed to elaborate:\n" + out[-2000:])
-    # forbidden tokens outside comments in the Lean sources
-    for root, _, files in os.walk(os.path.join(LEAN, "Okane")):
-        for fn in files:
-            if fn.endswith(".lean"):
-                p = os.path.join(root, fn)
-                for i, line in enumerate(strip_lean_comments(open(p).read()).splitlines(), 1):
-                    if FORBIDDEN.search(line):
-                        problems.append("forbidden token in %s:%d: %s" % (os.path.relpath(p, VERIF), i, line.strip()[:80]))
+    # forbidden tokens outside comments in the Lean sources this property's theorems depend on (import closure)
+    for p in sorted(lean_import_closure(["Okane.Props.%s" % pid] + list(imports))):
+        for i, line in enumerate(strip_lean_comments(open(p).read()).splitlines(), 1):
+            if FORBIDDEN.search(line):
+                problems.append("forbidden token in %s:%d: %s" % (os.path.relpath(p, VERIF), i, line.strip()[:80]))
     return len(theorems), discharged, problems, sorted(seen)
+
+
+def lean_import_closure(mods):
+    """files of the Okane.* modules reachable through `import` lines from `mods`"""
+    seen = {}
+    todo = list(mods)
+    while todo:
+        m = todo.pop()
+        if m in seen or not m.startswith("Okane"):
+            continue
+        path = os.path.join(LEAN, *m.split(".")) + ".lean"
+        if not os.path.exists(path):
+            continue
+        seen[m] = path
+        for line in open(path):
+            mm = re.match(r"\s*(?:public\s+)?import\s+(\S+)", line)
+            if mm:
+                todo.append(mm.group(1))
+    return set(seen.values())
 
 
 def strip_lean_comments(s):
@@ -369,7 +386,7 @@ def load_known(pid):
     return [f for f in data.get("findings", []) if pid in f.get("properties", []) and f.get("status") == "known"]
 
 
-def standard_prologue(chk, theorems, extra_targets=()):
+def standard_prologue(chk, theorems, extra_targets=(), imports=()):
     """build + proof audit; converts failures into violations with no-failing-input-found (the caller's
     streams still run afterwards and may turn up a concrete failing input)."""
     chk.theorems = list(theorems)
@@ -380,7 +397,7 @@ def standard_prologue(chk, theorems, extra_targets=()):
         chk.violation("cannot build /repo's current tree with the harness: nothing can be verified",
                       {"error": str(e)}, no_failing_input=True, tag="build")
         return False
-    ok, out = build_lean(chk.pid, chk.log, extra_targets)
+    ok, out = build_lean(chk.pid, chk.log, tuple(extra_targets) + tuple(imports))
     if not ok:
         errs = [l for l in out.splitlines() if "error" in l][:10]
         chk.obligations = len(theorems)
@@ -389,7 +406,7 @@ def standard_prologue(chk, theorems, extra_targets=()):
                       no_failing_input=True, tag="proof")
         # the driver may be stale or missing; streams that need it will notice
         return os.path.exists(DRV)
-    ob, di, problems, axs = audit(chk.pid, theorems, chk.log)
+    ob, di, problems, axs = audit(chk.pid, theorems, chk.log, imports)
     chk.obligations, chk.discharged, chk.axioms = ob, di, axs
     if problems:
         chk.violation("proof audit of %s failed: %s" % (chk.pid, problems[:5]),
